@@ -310,11 +310,19 @@ def _leap_and_tables(model, res):
                         vals.append(e.value)
                     elif isinstance(e, ast.IfExp) and isinstance(e.body, ast.Constant) and isinstance(e.orelse, ast.Constant):
                         vals.append((e.body.value, e.orelse.value))
+                    elif isinstance(e, ast.BinOp) and isinstance(e.op, ast.Add) and any(
+                            isinstance(a_, ast.Constant) and isinstance(a_.value, int) and isinstance(b_, (ast.Compare, ast.BoolOp))
+                            for a_, b_ in ((e.left, e.right), (e.right, e.left))):
+                        # 28 + <condition>: a condition counts as 0 or 1 (the condition itself is R3's business)
+                        base = [a_.value for a_ in (e.left, e.right) if isinstance(a_, ast.Constant)][0]
+                        vals.append((base + 1, base))
                     else:
                         vals.append(None)
                 want = [calendar.monthrange(2001, mth)[1] for mth in range(1, 13)]
                 ok = True
                 for i, v in enumerate(vals):
+                    if v is None:
+                        continue        # an entry computed in a way not read here: undecided, not wrong
                     if i == 1:
                         ok = ok and (v == (29, 28) or v in (28, 29))
                     else:
